@@ -934,6 +934,8 @@ def check_from_str(rep, g):
         rep.ob('R-FROMSTR', pe is not None, g, 'dedicated <T>ParseError enum exists', {})
         if pe is None:
             continue
+        et = g.impl_type(imp, 'Err')
+        rep.ob('R-FROMSTR', et is not None and g.F.ty(et).get('lid') == pe['lid'], g, 'FromStr::Err is the <T>ParseError enum', {})
         vnames = [v['name'] for v in pe['variants']]
         rep.ob('R-FROMSTR', vnames == (['Parse', 'Validate'] if hv else ['Parse']), g,
                'parse error enum has exactly Parse (and Validate iff validation)', {'variants': vnames})
@@ -1153,7 +1155,21 @@ def check_views(rep, g):
         if trait_tail == 'ops::Deref' and not imps and g.trait_impls('ops::deref::Deref'):
             continue
         rep.ob('R-IMPL', len(imps) == (n_expected if dname in derives else 0), g, f'{dname} impls present iff derived', {'n': len(imps)})
+        seen_targets = set()
         for imp in imps:
+            # the viewed type: Inner (plus `str` for string newtypes)
+            inner_s = g.F.tys(inner_field_ty)
+            if dname == 'Deref':
+                tt = g.impl_type(imp, 'Target')
+                tgt = g.F.tys(tt) if tt is not None else None
+            else:
+                tgt = g.F.tys(imp['trait_args'][1]) if len(imp.get('trait_args', [])) > 1 else None
+            seen_targets.add(tgt)
+            allowed = {inner_s} | ({'str'} if d['family'] == 'string' and dname in ('AsRef', 'Borrow') else set())
+            if d['family'] == 'string' and dname == 'AsRef':
+                allowed = {'str'}
+            rep.ob('R-VIEW', tgt is not None and same_type_modulo_lifetimes(tgt, next(iter(allowed))) or tgt in allowed, g,
+                   f'{dname} exposes the inner type{" (as str)" if "str" in allowed else ""}', {'target': tgt, 'allowed': sorted(allowed)})
             fn = g.impl_fn(imp, method)
             if fn is None:
                 continue
